@@ -72,7 +72,7 @@ def _deep_copy_container(c, depth=0):
 
 
 class Snapshot:
-    __slots__ = ("containers", "instances")
+    __slots__ = ("containers", "instances", "decimal_context")
 
 
 class World:
@@ -204,6 +204,9 @@ class World:
             attrs = [(k, dict(v) if isinstance(v, dict) else v) for k, v in attrs]
             inst.append((obj, attrs, not slots))
         s.instances = inst
+        import decimal
+
+        s.decimal_context = decimal.getcontext().copy()
         return s
 
     def restore(self, snap=None):
@@ -217,6 +220,13 @@ class World:
                     d.clear()
             for k, v in attrs:
                 setattr(obj, k, dict(v) if isinstance(v, dict) else v)
+        import decimal
+
+        ctx = getattr(snap, "decimal_context", None)
+        if ctx is not None:
+            # process-global state the library may touch too (a context left wider by one
+            # execution must not leak into the next)
+            decimal.setcontext(ctx.copy())
         self.clear_caches()
 
     # ------------------------------------------------------------ canonical forms
